@@ -178,8 +178,10 @@ def run(rep, tier):
     # nesting depth: every entry point of de::Override hands the same wrapper on (one inductive step each), so the behaviour decided
     # below for one object level is the behaviour at every depth through optionals, sequences, maps, newtypes and enum variants
     from checks import c01w
-    c01w.run_de(rep, prog)
-    c01w.twins(rep)
+    with rep.part('wrapper discipline (de)'):
+        c01w.run_de(rep, prog)
+    with rep.part('wrapper twins'):
+        c01w.twins(rep)
     entries = []
     for fmt in ('json', 'smile'):
         for side in ('server', 'client'):
